@@ -36,6 +36,7 @@ class Unit:
         self.tree = ast.parse(src, path)
         from . import alpha
         self.logging_stripped = alpha.strip_logging(self.tree)
+        self.docstrings_stripped = alpha.strip_docstrings(self.tree)
         self.alpha_renamed = alpha.apply(self.tree, alpha.load().get(name)) if not os.environ.get("PV_NO_ALPHA") else 0
         self.is_pkg = path.endswith("__init__.py")
         self.imports = {}  # local name -> (module, attr|None)
